@@ -75,7 +75,7 @@ prop(
     "C06",
     title="every opened stream is eventually closed",
     explanation="ownership obligations: every stream opened in a function is, on every exit path, returned, handed to a protocol connection, or closed; aclose of every class closes what it owns; the pool hands every removed, not-closed connection to _close_connections; pool.aclose empties the list into _close_connections",
-    not_decided=['pool.aclose() while a request is still connecting drops the connection object; the stream opened afterwards is owned by no pooled connection (the premise "no responses outstanding" does not hold at that aclose) - reproduced (design_probes/w4_preexisting/C06_preexisting_1.py), not stated as an obligation'],
+    not_decided=[],
     trusted=[A_NET, A_IFACE, A_SHIELD, A_SYNC, "A-runtime.5: which exceptions socket / ssl / anyio / trio operations raise and that fail_after cancels its body (the three real back ends are verified against the stream contract on top of these)"],
 )
 prop(
@@ -117,13 +117,13 @@ prop(
     title="timeouts applied to the right operations",
     explanation="call-site preconditions: every connect/TLS start gets extensions.timeout.connect, every read .read, every write .write, the pool wait .pool; absent means None; pass-through wrappers forward their timeout argument; SOCKS negotiation gets one of the configured values; in the three back ends every blocking runtime call runs under settimeout / fail_after of exactly the given value (trio: inf for None) and a deadline becomes the *Timeout class",
     trusted=[A_NET, A_SYNC],
-    not_decided=['on a shared HTTP/2 connection a request with a read timeout waits without limit for the read lock held by a request without one (design_probes/w4_preexisting/C16_preexisting_2.py): reproduced, not stated as an obligation', "the instant at which PoolTimeout fires (runtime primitive, assumed)"],
+    not_decided=["the instant at which PoolTimeout fires (runtime primitive, assumed)"],
 )
 prop(
     "C17",
     title="upgrade / CONNECT hand-over loses no bytes",
     explanation="sequence postconditions on the real upgrade stream for all max_bytes and contents (result ++ leading' ++ net' == leading ++ net, leading data first without touching the network, failures consume nothing), pass-through of write/close/start_tls/extra-info, trailing data captured with the head event, wrapped iff 101 or 2xx-to-CONNECT, switched connections take the close branch",
-    not_decided=['AsyncHTTP11UpgradeStream.start_tls drops bytes that arrived with the response head (a peer that speaks before the ClientHello): design_probes/w4_preexisting/C17_preexisting_1.py, not stated as an obligation'],
+    not_decided=[],
     trusted=[A_H11, A_NET, A_SYNC],
     audits=[AUD_H11],
 )
